@@ -103,7 +103,7 @@ DriftRT(r) ==
   IF ~CallInDomain(r) \/ r.exc # "" \/ Len(r.url) > 300 THEN "ok"
   ELSE LET bu == BuildUrl(r.map, r.bind, r.ep, EffVals(r), r.ext) IN
        IF ~bu.ok \/ bu.url # r.url THEN "build"
-       ELSE IF r.e.kind = "match" /\ r.under
+       ELSE IF r.e.kind = "match" /\ r.under /\ (\A i \in 1..Len(r.e.vals) : r.e.vals[i].ty = "float" => FloatCanon(r.e.vals[i].v, TRUE))
                /\ ~\E x \in MatchM(r.map, DomPart(r.map, r.bind, r.dhost).dom, r.dpath) : x.ep = r.e.ep /\ x.vals = ValSet(r.e.vals) THEN "match"
        ELSE IF r.map.sort # 0 /\ r.under /\ QueryDecode(r.dquery) \notin ExpectedExtras(r.map, r.ep, EffVals(r), ValSet(r.e.vals)) THEN "qsort"
        ELSE "ok"
